@@ -3,6 +3,7 @@ from __future__ import annotations
 import ast, re
 from ..frontend import AnalysisError, src, walk_no_nested
 from ..symx import run_paths
+from ..pathcond import implied
 from ..lin import Form
 from ..cfg import CFG
 
@@ -274,11 +275,15 @@ def _kind_justified_on_paths(f, idx, kind, isa_names, kind_ok):
                 return False
             if not isinstance(kexpr, ast.Constant):
                 # chained `kind = index = None` etc. are constants too; anything else must be one of the accepted expressions
-                if not kind_ok(kexpr):
+                from ..resolve import resolved as _res, path_defs as _pd
+                kres = _res(kexpr, {k_: v_ for k_, v_ in _pd(p, e).items() if k_ not in isa_names and k_ != src(idx)}, keep=set(f.params))
+                if not (kind_ok(kexpr) or kind_ok(kres)):
                     return False
                 continue
             k = kexpr.value
-            is_int = implied(p.conds, lambda t: isinstance(t, ast.Call) and src(t.func) in isa_names and len(t.args) == 2
+            from ..pathcond import resolved_conds
+            rc_ = resolved_conds(p, keep=set(f.params) | {src(idx)} | isa_names)
+            is_int = implied(rc_, lambda t: isinstance(t, ast.Call) and src(t.func) in isa_names and len(t.args) == 2
                              and src(t.args[1]) == 'int' and src(t.args[0]) == src(idx))
             loops = [l.stmt for l in p.events if l.kind == 'loop' and isinstance(l.stmt, ast.For) and src(l.stmt.iter) == src(idx)
                      and isinstance(l.stmt.target, ast.Name)]
@@ -295,7 +300,7 @@ def _kind_justified_on_paths(f, idx, kind, isa_names, kind_ok):
                 g0, e_ = comp.generators[0], comp.elt
                 return src(g0.iter) == src(idx) and not g0.ifs and isinstance(e_, ast.Call) and src(e_.func) in isa_names \
                     and len(e_.args) == 2 and src(e_.args[0]) == src(g0.target) and src(e_.args[1]) == 'list'
-            v_any = implied(p.conds, any_list)
+            v_any = implied(rc_, any_list)
             if v_any is not None:
                 has_list = v_any
                 if k == 3 and v_any is False:
@@ -386,18 +391,24 @@ def schema(ctx, d3):
     # the reader: kind 0 uses dct.get(index) ; kinds 1-3 iterate
     r = prog.func(IX, 'get_sparse_chemical_data')
     ip, kp = r.params[1], r.params[2]
+    # decided on the paths of the normal form: the value returned where `kind == 0` holds is <dict>.get(index, ...), where `kind == 3`
+    # holds it is built from one <dict>.get(i, ...) per element i of the index
+    from ..resolve import resolved as _res2, path_defs as _pd2
+    rps, _ = run_paths(prog.normal_form(r), follow_except=False, max_paths=2000)
     reader = {}
-    for node in walk_no_nested(r.node):
-        if isinstance(node, ast.If) and isinstance(node.test, ast.Compare) and src(node.test.left) == kp and isinstance(node.test.comparators[0], ast.Constant):
-            ret = [b for b in node.body if isinstance(b, ast.Return)]
-            if ret:
-                reader[node.test.comparators[0].value] = ret[0].value
-    r0, r3 = reader.get(0), reader.get(3)
-    ok0 = isinstance(r0, ast.Call) and isinstance(r0.func, ast.Attribute) and r0.func.attr == 'get' and r0.args and src(r0.args[0]) == ip
-    ok3 = False
-    if r3 is not None:
+    for p in rps:
+        if p.raised or p.ret_node is None or p.ret_node.value is None:
+            continue
+        for k_ in (0, 3):
+            if implied(p.conds, lambda t, k_=k_: isinstance(t, ast.Compare) and len(t.ops) == 1 and isinstance(t.ops[0], ast.Eq) and src(t.left) == kp
+                       and isinstance(t.comparators[0], ast.Constant) and t.comparators[0].value == k_ and not isinstance(t.comparators[0].value, bool)) is True:
+                reader.setdefault(k_, []).append(_res2(p.ret_node.value, _pd2(p), keep=set(r.params)))
+    r0s, r3s = reader.get(0, []), reader.get(3, [])
+    ok0 = bool(r0s) and all(isinstance(r0, ast.Call) and isinstance(r0.func, ast.Attribute) and r0.func.attr == 'get' and r0.args and src(r0.args[0]) == ip for r0 in r0s)
+    ok3 = bool(r3s)
+    for r3 in r3s:
         comps = [x for x in ast.walk(r3) if isinstance(x, ast.ListComp)]
-        ok3 = bool(comps) and src(comps[0].generators[0].iter) == ip and isinstance(comps[0].elt, ast.Call) \
+        ok3 = ok3 and bool(comps) and src(comps[0].generators[0].iter) == ip and isinstance(comps[0].elt, ast.Call) \
             and isinstance(comps[0].elt.func, ast.Attribute) and comps[0].elt.func.attr == 'get' \
             and src(comps[0].elt.args[0]) == src(comps[0].generators[0].target)
     if ok0 and ok3:
